@@ -66,3 +66,6 @@ Check C15_top_rt_maybe_ref : forall SC H allow E1 (hand_ok : N -> value -> Prop)
   exists vs', read SC H allow E1 (S F) [] (TStruct i) (PDict dw) = TOk (VStruct vs')
     /\ write_top SC H F E1 i (VStruct vs') = TOk (PDict dw, E1).
 Check C15_generated_top_wf : forallb (fun s => negb (rw s) || schema_wf_top s) (structs gen_schemas) = true.
+
+Check C15_hand_Action : forall rs v p, action_ok v -> write_action v = TOk p ->
+  exists v', read_action rs p = TOk v' /\ write_action v' = TOk p.
